@@ -568,6 +568,11 @@ def check(prop, tier, seed, replay=None):
                                       "invariants": ["C11_NoForeignRead", "C11_OutputDeps"]})
         pref = model_prefixes(prop, tier, wd, rng, cov)
         S = {"C10": c10_scripts, "C16": c16_scripts, "C17": c17_scripts, "C11": c11_scripts}[prop](rng, tier, pref)
+    # witnesses of repaired defects of this property (regressions)
+    for w in {"C10": ["D13"]}.get(prop, []):
+        wp = os.path.join(run.VERIF, "findings", w + ".jsonl")
+        if os.path.exists(wp):
+            S.append([json.loads(l) for l in open(wp) if l.strip()])
     cov["scripts"]["total"] = len(S)
     pairs = run.run_scripts(S, wd)
     res = run.validate_traces(pairs, plan["twin"], wd, module="TraceTwin", tag=prop)
